@@ -163,6 +163,14 @@ fn finite_endpoints(c: &IntCase) -> Vec<i128> {
 
 fn emit_case(n: usize, c: &IntCase, src: &mut String) {
     let t = &c.text;
+    if t.starts_with('{') {
+        // a named number list can only follow the INTEGER keyword: built-in contexts only
+        src.push_str(&format!("Tq{n}a ::= INTEGER {t}\n"));
+        src.push_str(&format!("Tq{n}b ::= SEQUENCE {{ fq1 INTEGER {t}, fq3 Tq{n}a OPTIONAL }}\n"));
+        src.push_str(&format!("Tq{n}c ::= SEQUENCE OF INTEGER {t}\n"));
+        src.push_str(&format!("Tq{n}e ::= CHOICE {{ cq1 INTEGER {t}, cq2 NULL }}\n"));
+        return;
+    }
     src.push_str(&format!("Tq{n}a ::= INTEGER {t}\n"));
     let ends = finite_endpoints(c);
     let def = ends.first().map(|v| format!(" DEFAULT {v}")).unwrap_or_default();
@@ -179,7 +187,8 @@ fn emit_case(n: usize, c: &IntCase, src: &mut String) {
 }
 
 fn check_batch(cases: &[IntCase], rep: &mut Report) {
-    let mut src = String::from("Mq1 DEFINITIONS AUTOMATIC TAGS ::= BEGIN\nTz ::= INTEGER\n");
+    // `limq` is a value (70000) and, in an unrelated type, a named number (10): as a bound it denotes the value
+    let mut src = String::from("Mq1 DEFINITIONS AUTOMATIC TAGS ::= BEGIN\nTz ::= INTEGER\nHq ::= INTEGER { lowq(0), limq(10) }\nlimq INTEGER ::= 70000\n");
     for (n, c) in cases.iter().enumerate() {
         emit_case(n, c, &mut src);
     }
@@ -380,6 +389,19 @@ pub fn run(ctx: &Ctx) -> Report {
     rep.exhaustive = Some(true);
     rep.extra.insert("boundary_points".into(), json!(pts.len() + 2));
     rep.extra.insert("exhaustive_pairs_x_marker".into(), json!(cases.len()));
+    // named number lists: they name values, they do not restrict the type (X.680 19.5)
+    for (i, a) in pts.iter().enumerate() {
+        let b = pts[(i * 7 + 3) % pts.len()];
+        let text = format!("{{ nqa({a}), nqb({b}) }}");
+        cases.push(IntCase { key: text.clone(), text, permitted: IvSet::single(Iv::new(None, None)), extensible: false, ext_ambiguous: false });
+        let (lo, hi) = if *a <= b { (*a, b) } else { (b, *a) };
+        let text = format!("{{ nqa({a}), nqb({b}) }} ({lo}..{hi})");
+        cases.push(IntCase { key: text.clone(), text, permitted: IvSet::single(Iv::new(Some(lo), Some(hi))), extensible: false, ext_ambiguous: false });
+    }
+    // a value reference as bound while an unrelated type has a named number of the same spelling
+    for (text, lo, hi, ext) in [("(0..limq)", 0i128, 70000i128, false), ("(limq)", 70000, 70000, false), ("(-5..limq, ...)", -5, 70000, true), ("(limq..4294967296)", 70000, 4294967296, false)] {
+        cases.push(IntCase { key: text.to_string(), text: text.to_string(), permitted: IvSet::single(Iv::new(Some(lo), Some(hi))), extensible: ext, ext_ambiguous: false });
+    }
     let nrand = ctx.pick(6_000u64, 60_000);
     for i in 0..nrand {
         let mut rng = Rng::for_case(ctx.seed, 6, i);
